@@ -365,11 +365,15 @@ pub fn explore(vseed: u64, executions: usize, dir: &std::path::Path) -> (serde_j
     if let Some((idx, pseed, p, msg, sched)) = found.first()
     {
         let rule = msg.split(':').next().unwrap_or("thread-scenario").to_string();
+        // minimise the scenario program: drop ops / initial clones / workers / entities while the same rule still fails
+        // under the same seeded scheduler (the schedule index may change; it is recomputed)
+        let (p, msg, sched) = &minimise(p, *pseed, per_prog, &rule, msg.clone(), *sched);
         let rdir = dir.join("replays");
         let _ = std::fs::create_dir_all(&rdir);
         let path = rdir.join(format!("C10-threads-{vseed}-{idx}.json"));
         let rf = TReplay { version: 1, property: "C10".into(), rule, message: msg.clone(), verif_seed: vseed, program_seed: *pseed, tprog: p.clone(),
             scheduler: "shuttle::scheduler::RandomScheduler::new_from_seed".into(), scheduler_seed: *pseed, schedules: per_prog, failed_at_schedule: *sched };
+        let _ = idx;
         let _ = std::fs::write(&path, serde_json::to_string_pretty(&rf).unwrap());
         out.push((msg.clone(), path.display().to_string()));
     }
@@ -387,6 +391,43 @@ pub fn explore(vseed: u64, executions: usize, dir: &std::path::Path) -> (serde_j
         "sample_program": serde_json::to_value(gen_tprog(crate::gen::mix(crate::gen::mix(vseed, 0xC10), 0))).unwrap(),
     });
     (cov, out)
+}
+
+/// Greedy delta-debugging over the thread scenario program.
+fn minimise(p: &TProg, seed: u64, schedules: usize, rule: &str, msg: String, sched: usize) -> (TProg, String, usize)
+{
+    let fails = |q: &TProg| -> Option<(String, usize)>
+    {
+        match run_shuttle(q, seed, schedules, Arc::new(TStats::default())) { Err((m, at)) if m.starts_with(rule) => Some((m, at)), _ => None }
+    };
+    let mut best = (p.clone(), msg, sched);
+    let mut budget = 300usize;
+    loop
+    {
+        let mut improved = false;
+        let cur = best.0.clone();
+        let mut cands: Vec<TProg> = Vec::new();
+        for i in 0..cur.main.len() { let mut q = cur.clone(); q.main.remove(i); cands.push(q); }
+        for w in 0..cur.workers.len() { for i in 0..cur.workers[w].len() { let mut q = cur.clone(); q.workers[w].remove(i); cands.push(q); } }
+        for i in 0..cur.initial.len() { let mut q = cur.clone(); q.initial.remove(i); cands.push(q); }
+        // drop the last worker if it holds nothing and does nothing
+        if cur.workers.len() > 1 && cur.workers.last().map(|w| w.is_empty()).unwrap_or(false) && !cur.initial.iter().any(|(_, h)| *h as usize == cur.workers.len()) { let mut q = cur.clone(); q.workers.pop(); cands.push(q); }
+        // detach children
+        for i in 0..cur.parents.len() { if cur.parents[i].is_some() { let mut q = cur.clone(); q.parents[i] = None; cands.push(q); } }
+        // drop the last entity if nothing refers to it
+        if cur.parents.len() > 1
+        {
+            let last = (cur.parents.len() - 1) as u8;
+            if !cur.sig_ent.contains(&last) && !cur.parents.iter().any(|x| *x == Some(last)) && !cur.main.iter().any(|m| matches!(m, MOp::Despawn(e) if *e == last)) { let mut q = cur.clone(); q.parents.pop(); cands.push(q); }
+        }
+        for q in cands
+        {
+            if budget == 0 { return best; }
+            budget -= 1;
+            if let Some((m, at)) = fails(&q) { best = (q, m, at); improved = true; break; }
+        }
+        if !improved { return best; }
+    }
 }
 
 pub fn replay(_p: &Program, _schedule: &str, path: &str) -> i32
